@@ -237,6 +237,30 @@ func c03Factory(c *Ctx, w *prove.World) {
 					continue
 				}
 				t, fls := blockCalls(b.Succs[0]), blockCalls(b.Succs[1])
+				// the factory may also be selected as a function VALUE: a φ of the two
+				// factories whose incoming edges come from the two arms of this branch
+				for _, jb := range f.Blocks {
+					for _, in := range jb.Instrs {
+						phi, isPhi := in.(*ssa.Phi)
+						if !isPhi {
+							break
+						}
+						for i, ed := range phi.Edges {
+							fv, isFn := ed.(*ssa.Function)
+							if !isFn {
+								continue
+							}
+							pr := jb.Preds[i]
+							onTrue := pr == b.Succs[0] || (b.Succs[0] != jb && b.Succs[0].Dominates(pr)) || (pr == b && jb == b.Succs[0])
+							onFalse := pr == b.Succs[1] || (b.Succs[1] != jb && b.Succs[1].Dominates(pr)) || (pr == b && jb == b.Succs[1])
+							if onTrue && !onFalse {
+								t[fv.Name()] = true
+							} else if onFalse && !onTrue {
+								fls[fv.Name()] = true
+							}
+						}
+					}
+				}
 				if neg {
 					t, fls = fls, t
 				}
